@@ -87,7 +87,12 @@ def gen_tree(rng, base="wl", depth=3, fan=4, big=False, tie=False, pidcounts=(0,
         info[rel] = {"pids": mypids, "children": []}
         if d < depth:
             n = rng.randint(0, fan) if d > 0 else rng.randint(2, fan + 1)
-            picked = rng.sample(NAMES, min(n, len(NAMES)))
+            if fan > len(NAMES):
+                # a wide peer group (sorting routines switch algorithm with the size: 17+ elements)
+                n = fan if d == 0 else rng.choice([0, 1, 2, fan])
+                picked = rng.sample(NAMES + ["n%d" % i for i in range(fan)], n)
+            else:
+                picked = rng.sample(NAMES, min(n, len(NAMES)))
             for nm in list(picked):
                 if nm in DECOY and rng.random() < 0.6:
                     picked.append(DECOY[nm])
